@@ -648,8 +648,12 @@ func (e *engine) eval() error {
 			return nil
 		})
 		var merr error
+		var limitErr error
 		if err := EvalTransformWithInputFacts(clause.Head, *clause.Transform, substs, inputFacts,
 			func(a ast.Atom, kind TransformKind, groupKey []ast.Constant, groupFacts []ast.Atom) bool {
+				if limitErr != nil {
+					return false // The fact limit is reached: no further group is emitted.
+				}
 				a, err := functional.EvalAtom(a, ast.ConstSubstList{})
 				if err != nil {
 					merr = multierr.Append(merr, err)
@@ -658,12 +662,19 @@ func (e *engine) eval() error {
 				if e.options.recorder != nil && kind == TransformKindDo {
 					e.options.recorder.DoEmit(clause, clause.Head, groupKey, groupFacts, a)
 				}
-				return e.store.Add(a)
+				added := e.store.Add(a)
+				if e.options.totalFactLimit > 0 && e.store.EstimateFactCount() > e.options.totalFactLimit {
+					limitErr = fmt.Errorf("fact size limit reached evaluating %q %d > %d", clause.Head.String(), e.store.EstimateFactCount(), e.options.totalFactLimit)
+				}
+				return added
 			}); err != nil {
 			return err
 		}
 		if merr != nil {
 			return merr
+		}
+		if limitErr != nil {
+			return limitErr
 		}
 	}
 	return nil
